@@ -73,6 +73,9 @@ pub fn universe_lifted(sc: &uni::Scratch, tier: Tier, lift: usize) -> Tree {
 
 struct Inv06 {
 	inst: String,
+	/// twin continuation after read-only probes too (thorough; quick checks that nothing changed, and C02 judges
+	/// the unspent view after the same probes)
+	ro_twin: bool,
 }
 
 fn changed_keys(a: &Fp, b: &Fp) -> Vec<String> {
@@ -168,6 +171,11 @@ impl Invariant for Inv06 {
 		// differential continuation: the valid block the bad one was derived from must now be
 		// processed exactly as by a twin that never saw the bad input
 		let t = live.tree;
+		if let Some(Ev::RO(_)) = prefix.last() {
+			if !self.ro_twin {
+				return;
+			}
+		}
 		if let Some(Ev::T(_)) | Some(Ev::RO(_)) = prefix.last() {
 			// differential continuation: up to two valid blocks that can be delivered now are processed by this
 			// object (which has just judged the transaction) and by a twin that never saw it
@@ -252,7 +260,7 @@ fn run(tier: Tier, shard: usize, n: usize) -> Report {
 	let iname: &'static str = if lift == 0 { "U" } else if lift == 12 { "U+12" } else { "N" };
 	crate::chainx::guarded(iname, &mut rep, move |rep| {
 		let tree = if lift == 99 { crate::c13::universe_nrd(scr) } else { universe_lifted(scr, tier, lift) };
-		let mut inv = Inv06 { inst: iname.into() };
+		let mut inv = Inv06 { inst: iname.into(), ro_twin: tier == Tier::Thorough };
 		let is_lift = |i: usize| tree.blocks[i].name.starts_with('p');
 		let prelude: Vec<Ev> = (0..tree.blocks.len()).filter(|i| is_lift(*i)).map(Ev::B).collect();
 		let mut ex = Explorer::with_prelude(&tree, scr, Options::NONE, iname, &prelude);
